@@ -134,6 +134,31 @@ var truncatingConsumers = map[string]string{
 	"Decimal.Float64": "faithful (not correctly rounded) conversion: 256-bit intermediate keeps >= 128 bits",
 }
 
+// truncatingConsumer: fn is one of the conversions above, or an unexported
+// helper called from nowhere else.
+func (p *Prog) truncatingConsumer(fn string, depth int) (string, bool) {
+	if why, ok := truncatingConsumers[fn]; ok {
+		return why, true
+	}
+	fd := p.Funcs[fn]
+	if fd == nil || depth > 2 || ast.IsExported(fd.Name.Name) {
+		return "", false
+	}
+	callers := p.callersOf(fn)
+	if len(callers) == 0 {
+		return "", false
+	}
+	why := ""
+	for _, cn := range callers {
+		w, ok := p.truncatingConsumer(cn, depth+1)
+		if !ok {
+			return "", false
+		}
+		why = w
+	}
+	return "helper used only by truncating conversions (" + strings.Join(callers, ", ") + "): " + why, true
+}
+
 func ruleStickyRemainders(c *Ctx) {
 	p := c.P
 	evs := p.collectDivEvents()
@@ -149,8 +174,10 @@ func ruleStickyRemainders(c *Ctx) {
 			continue
 		}
 		if isBlank(ev.rem) {
-			if why, ok := truncatingConsumers[ev.fn]; ok {
+			if why, ok := p.truncatingConsumer(ev.fn, 0); ok {
 				c.exempt(key, ev.stmt, why, fp...)
+			} else if p.isDigitProbe(p.Funcs[ev.fn]) {
+				c.exempt(key, ev.stmt, "digit probe: a function of one integer value returning one plain integer; no dropped digit can reach a coefficient", fp...)
 			} else {
 				c.bad(key, ev.stmt, fmt.Sprintf("%s: the remainder of %s ÷ 10^%d is discarded; every dropped digit must reach the sticky flag, the guard digit or an exactness test", ev.fn, ev.tname, ev.k), fp...)
 			}
